@@ -715,7 +715,7 @@ func driveTables(c *DriverCtx) error {
 				cands = append(cands, c.junk(w))
 			}
 		} else {
-			alpha := []int{'0', '1', '2', '5', '9', ' ', 'A', 0}
+			alpha := []int{'0', '1', '2', '5', '9', ' ', 'A', 0, '+', '-'} // signs: keys that a numeric parser would accept
 			for _, a := range alpha {
 				for _, b := range alpha {
 					for _, d := range alpha {
@@ -801,6 +801,45 @@ func driveHostile(c *DriverCtx) error {
 	}
 	c.G.Small = true
 	longDone := 0
+	// a refused frame, then a run-time registration in the same table, then an ordinary frame: every call must return
+	for _, tn := range TableNames() {
+		tab := S.Tables[tn]
+		owner := tab.Owner
+		if c.TypeFilter != nil && !c.TypeFilter[owner] {
+			continue
+		}
+		bf := BodyField(owner)
+		var unk, fresh []int
+		if tab.KeyKind == "int" {
+			w := len(tab.Entries[0].Key)
+			unk, fresh = make([]int, w), make([]int, w)
+			unk[0], unk[w-1] = 0x6e, 0x01
+			fresh[0], fresh[w-1] = 0x6e, 0x02
+		} else {
+			unk, fresh = []int{'Y', '7', 'Y'}, []int{'Y', '8', 'Y'}
+		}
+		e := tab.Entries[0]
+		mkv := func(key []int) map[string]any {
+			v := c.G.Value(owner, Canon)
+			v[tab.KeyField] = key
+			v[bf.Name] = c.G.Value(e.Type, Canon)
+			return v
+		}
+		wu, err := enc(owner, mkv(unk))
+		if err != nil {
+			return err
+		}
+		wk, err := enc(owner, mkv(e.Key))
+		if err != nil {
+			return err
+		}
+		ops := []Op{{Op: "load", B: "b", Bytes: wu}, {Op: "decode", B: "b", O: "r", T: owner, Fresh: true, Meter: true, Tag: "unregistered"},
+			{Op: "regfactory", From: tn, Bytes: fresh, T: e.Type, Tag: "run-time-registration-after-a-refused-frame"},
+			{Op: "load", B: "b2", Bytes: wk}, {Op: "decode", B: "b2", O: "r2", T: owner, Fresh: true, Meter: true, Tag: "after-registration"}}
+		if err := c.Run(ops); err != nil {
+			return err
+		}
+	}
 	for _, t := range c.types() {
 		// a long legitimate text goes through the decoder first (pooled scratch, caches ... are warm and large),
 		// then prefixes that claim no more than that, with almost nothing behind them
@@ -950,6 +989,22 @@ func driveHostile(c *DriverCtx) error {
 					}
 					if hit {
 						if err := emit(x, "key-blank"); err != nil {
+							return err
+						}
+					}
+				}
+				// keys a lenient numeric parser would take for a registered one
+				for _, pat := range [][]int{{'-', '0', '1'}, {'+', '1', '0'}, {'-', '9', '9'}, {' ', '1', '0'}, {'1', 'e', '1'}, {'0', 'x', '1'}, {'+', '5', '1'}, {'-', '1', '0'}} {
+					x := append([]int{}, w...)
+					k := 0
+					for p := range x {
+						if slots[p] == 'k' && k < len(pat) {
+							x[p] = pat[k]
+							k++
+						}
+					}
+					if k == len(pat) {
+						if err := emit(x, "key-signed"); err != nil {
 							return err
 						}
 					}
@@ -1166,9 +1221,14 @@ func driveEncodeReuse(c *DriverCtx) error {
 				mode = Wild // sparse values: nil bodies / nil nested parts
 			}
 			v := c.G.Value(t, mode)
-			if mode == Wild { // sparse: every nested part the caller may leave out is left out
+			if mode == Wild { // sparse: every nested part / body / extension the caller may leave out is left out
 				for _, f := range S.Types[t].Fields {
 					if f.Kind == "obj" && !f.ByValue {
+						v[f.Name] = nilObj
+					}
+					if f.Kind == "body" {
+						tab := S.Tables[f.Table]
+						v[f.Key] = tab.Entries[c.G.R.Intn(len(tab.Entries))].Key
 						v[f.Name] = nilObj
 					}
 				}
@@ -1177,10 +1237,14 @@ func driveEncodeReuse(c *DriverCtx) error {
 			ops := []Op{
 				{Op: "new", O: "a", V: v}, {Op: "encode", B: "ba", O: "a", Tag: "reference"},
 				{Op: "new", O: "p", V: other}, {Op: "encode", B: "bp", O: "p"},
-				{Op: "decode", B: "bp", O: "a", T: t, Tag: "into-encoded-object"},
-				{Op: "mutate", O: "a"},
-				{Op: "new", O: "c", V: v}, {Op: "encode", B: "bc", O: "c", Tag: "equal-message-later"},
 			}
+			if i%4 >= 2 {
+				// the caller goes on working with the object it just sent (whatever Encode attached to it included)
+				ops = append(ops, Op{Op: "mutate", O: "a"})
+			} else {
+				ops = append(ops, Op{Op: "decode", B: "bp", O: "a", T: t, Tag: "into-encoded-object"}, Op{Op: "mutate", O: "a"})
+			}
+			ops = append(ops, Op{Op: "new", O: "c", V: v}, Op{Op: "encode", B: "bc", O: "c", Tag: "equal-message-later"})
 			if err := c.Run(ops); err != nil {
 				return err
 			}
